@@ -135,6 +135,10 @@ pub struct ModelSpec {
     /// gap between the end of the runtime block and the first vertex section / between sections (bytes, C06 only)
     pub section_gap: u8,
     pub has_flags: (bool, bool),
+    /// != 0: the two offset copies the reader does not use (the file header's vertex offsets and the LOD records'
+    /// index offsets) are shifted by 64 x this many bytes, so that they disagree with the copies it does use
+    #[serde(default)]
+    pub skew_unused_copies: u8,
 }
 
 #[derive(Clone, Debug, PartialEq)]
@@ -426,7 +430,7 @@ pub fn encode(m: &ModelSpec) -> Built {
             let (vsize, isize_, voff, ioff) = lod_recs[l];
             r.u32(0).u32(ioff); // edge geometry size / offset
             r.u32(0).zeros(4); // polygon count
-            r.u32(vsize).u32(isize_).u32(voff).u32(ioff);
+            r.u32(vsize).u32(isize_).u32(voff).u32(if count > 0 { ioff + 64 * m.skew_unused_copies as u32 } else { ioff });
             mesh_index += count;
         }
         for (i, mesh) in all_meshes.iter().enumerate() {
@@ -520,7 +524,7 @@ pub fn encode(m: &ModelSpec) -> Built {
     let mut f = W::new();
     f.u32(m.version).u32(stack_size).u32(runtime_size).u16(all_meshes.len() as u16).u16(m.materials.len() as u16);
     for l in 0..3 {
-        f.u32(lod_recs[l].2);
+        f.u32(if l < m.lods.len() { lod_recs[l].2 + 64 * m.skew_unused_copies as u32 } else { lod_recs[l].2 });
     }
     for l in 0..3 {
         f.u32(lod_recs[l].3);
